@@ -222,6 +222,35 @@ theorem per_elem_partial (x : Ext) (cfg : Cfg) (env : Env) (pe : PE) (ifs : Str)
     fields x cfg env pe true = (mapMExcept (scalarOp x pe) l).map (fun ys => (ys, env)) :=
   per_elem_fields x cfg env pe ifs l hifs hp hv hidx h1 h2 h3 hop
 
+/-- The same operators on `"${a[*]…}"`: mapped over the elements, then joined with the first IFS
+    character into one field. -/
+theorem per_elem_star (x : Ext) (cfg : Cfg) (env : Env) (pe : PE) (ifs : Str) (l : List Str)
+    (hifs : ifsOf env = .ok ifs) (hp : Plain pe.name) (hv : env.get pe.name = Var.ofList l)
+    (hidx : pe.idx = .star) (h1 : pe.excl = false) (h2 : pe.length = false) (h3 : pe.slice = none)
+    (hop : PerElem x pe l) :
+    fields x cfg env pe true
+      = (mapMExcept (scalarOp x pe) l).map (fun ys => ([joinWith (ifs.take 1) ys], env)) :=
+  per_elem_fields_star x cfg env pe ifs l hifs hp hv hidx h1 h2 h3 hop
+
+/-- … and on `"${m[@]…}"` of an associative array: mapped over its values (in sorted order), one
+    field each (since ed26a21 / 0ab856c). -/
+theorem per_elem_assoc (x : Ext) (cfg : Cfg) (env : Env) (pe : PE) (ifs : Str) (m : List (Str × Str))
+    (hifs : ifsOf env = .ok ifs) (hp : Plain pe.name) (hv : env.get pe.name = Var.ofMap m)
+    (hidx : pe.idx = .at) (h1 : pe.excl = false) (h2 : pe.length = false) (h3 : pe.slice = none)
+    (hop : PerElem x pe (sortStrs (m.map (·.2)))) :
+    fields x cfg env pe true
+      = (mapMExcept (scalarOp x pe) (sortStrs (m.map (·.2)))).map (fun ys => (ys, env)) :=
+  per_elem_fields_assoc x cfg env pe ifs m hifs hp hv hidx h1 h2 h3 hop
+
+/-- … and on `"$@"`: mapped over the positional parameters, one field each (`asX pe` is the same
+    expansion about an ordinary scalar variable). -/
+theorem per_elem_positional (x : Ext) (cfg : Cfg) (env : Env) (pe : PE) (ifs : Str) (l : List Str)
+    (hifs : ifsOf env = .ok ifs) (hn : pe.name = ['@']) (hv : env.get ['@'] = Var.ofList l)
+    (h1 : pe.excl = false) (h2 : pe.length = false) (h3 : pe.slice = none)
+    (hop : PerElem x pe l) :
+    fields x cfg env pe true = (mapMExcept (scalarOp x (asX pe)) l).map (fun ys => (ys, env)) :=
+  per_elem_fields_at_positional x cfg env pe ifs l hifs hn hv h1 h2 h3 hop
+
 /-- The same for every operator the grammar allows after `a[@]` (the `@` transformations included). -/
 def per_elem_statement : Prop :=
   ∀ (x : Ext) (cfg : Cfg) (env : Env) (pe : PE) (ifs : Str) (l : List Str),
@@ -445,6 +474,12 @@ example : paramExp xLit {} [(xN, Var.ofStr (sOf "abcabc"))] { name := xN, repl :
     = .ok (sOf "aXcaXc", [(xN, Var.ofStr (sOf "abcabc"))]) := by decide
 example : paramExp xCStar {} [(xN, Var.ofStr (sOf "abcb"))] { name := xN, exp := some (.remLargeSuf, sOf "c*") }
     = .ok (sOf "ab", [(xN, Var.ofStr (sOf "abcb"))]) := by decide
+example : fields xLit {} ((sOf "IFS", Var.ofStr [':']) :: abEnv)
+    { name := xN, idx := .star, exp := some (.upperAll, ['a']) } true
+    = .ok ([sOf "A:b"], (sOf "IFS", Var.ofStr [':']) :: abEnv) := by decide
+
+example : fields xLit {} [(['@'], Var.ofList [sOf "ab", sOf "b"])] { name := ['@'], exp := some (.remSmallPre, ['a']) } true
+    = .ok ([['b'], ['b']], [(['@'], Var.ofList [sOf "ab", sOf "b"])]) := by decide
 example : Spec.table .asgUnsetOrNull .null = some .assign := rfl
 
 end ShVerif.C21
